@@ -51,6 +51,12 @@ def run_tape(mod, cfg, tape):
     """One run: pure function of the tape (and the code under test)."""
     seed_for_entropy = tape.seed if tape.seed is not None else cfg.get("replay_seed", 0)
     pin.reseed(seed_for_entropy)
+    if getattr(mod, "GC_EACH_RUN", False):
+        # Collections: expression objects of earlier runs (kept alive by reference cycles while
+        # the cyclic GC is disabled) sit in dask's weak singleton cache and carry cached layers;
+        # a later run with equal names would reuse them and draw fewer uuids than a cold
+        # interpreter.  Collect them so that every run starts like the first one of a process.
+        pin.collect_garbage()
     snap = pin.snapshot_globals()
     try:
         out = mod.run_one(tape, cfg)
@@ -220,6 +226,14 @@ def digests_main(args):
         tape = Tape(seed)
         out = run_tape(mod, cfg, tape)
         rows.append([seed, out.status, out.oracle, out.digest, out.wdigest, len(tape.values)])
+    # warm re-run: the first seeds again, after everything else ran in this process (what the
+    # shrinker does all the time); must give the same rows
+    for row in rows[: min(10, len(rows))]:
+        tape = Tape(row[0])
+        out = run_tape(mod, cfg, tape)
+        again = [row[0], out.status, out.oracle, out.digest, out.wdigest, len(tape.values)]
+        if again != row:
+            rows.append(["RERUN-DIFF", row, again])
     with open(args["out"], "w") as f:
         json.dump(rows, f)
 
